@@ -1,6 +1,7 @@
 import TsVerif.C16.Lemmas
 import TsVerif.C16.NodeTypesLemmas
 import TsVerif.C16.Names
+import TsVerif.C16.DeriveLemmas
 /-!
 # C16 — node-types.json, symbol tables and look-ahead sets are sound for every tree
 
@@ -134,6 +135,70 @@ theorem closure_always_converges (nt : NodeTypes) (roots : List TypeRef) :
 theorem allowed_iff_reach (nt : NodeTypes) (spec : ChildSpec) (t : TypeRef) :
     allowed nt spec t = true ↔ Reach nt spec.types t := allowed_iff (closure_isSome nt spec.types)
 
+/-! ## derivation of node types from the grammar (model of `get_variable_info`) -/
+
+open Derive in
+/-- `derive_sound_partial`: for every prepared grammar `G` (productions of steps with fields and
+aliases, visible / hidden tokens and rules) and every node-type information `I` that is closed under
+the inequations `get_variable_info` iterates (`Closed`), EVERY children sequence that the derivation
+semantics can produce for a rule `v` — through any nesting of hidden rules, with fields inherited
+through them — is admitted: each child's kind is in `children v`, each (field, child kind) pair is in
+`fieldTypes v field`, and the quantity flags hold (`childMax/fieldMax < 2`, i.e. not `multiple`, bounds
+the count by it; `childMin/fieldMin`, i.e. `required`, is a lower bound).
+PARTIAL: the model has no inlined rules, supertypes, extras, `children_without_fields` split or
+cross-rule merging by default aliases, and the theorem is about closed information, not about the
+iteration that computes the least one.  OPEN: the same statement for the full `generate_node_types`. -/
+theorem derive_sound_partial (G : Grammar) (I : Info) (hcl : Closed G I) (n v : Nat) (ks : List Child)
+    (h : KidsN G n v ks) : Admits I v ks :=
+  kidsN_sound G I hcl n v ks h
+
+namespace Derive
+
+/-- the node-types entry the information gives for rule `v` (fields part) -/
+def toEntry (I : Info) (v : Nat) (ty : TypeRef) (names : List String) : Entry :=
+  { ty := ty, children := none, subtypes := none,
+    fields := names.map (fun f => (f, { required := decide (1 ≤ I.fieldMin v f), multiple := decide (2 ≤ I.fieldMax v f),
+                                        types := I.fieldTypes v f })) }
+
+def kidVT (c : Child) : VT := .node c.ty false c.fields []
+
+theorem countField_kidVT (ks : List Child) (f : String) : countField (ks.map kidVT) f = cnt f ks := by
+  unfold countField cnt
+  rw [List.filter_map, List.length_map]
+  congr 1
+
+end Derive
+
+open Derive in
+/-- `derive_entry_fields_partial`: in the vocabulary of `Conforms` — the entry built from closed
+information admits every derived child under every field it carries (directly listed type) and its
+`required` / `multiple` flags hold for the derived children. -/
+theorem derive_entry_fields_partial (G : Grammar) (I : Info) (hcl : Closed G I) (nt : NodeTypes)
+    (n v : Nat) (ks : List Child) (h : KidsN G n v ks) (ty : TypeRef) (names : List String)
+    (hnames : ∀ c ∈ ks, ∀ f ∈ c.fields, f ∈ names) :
+    (∀ k ∈ ks.map kidVT, ∀ f ∈ k.fields, ∃ fs ∈ (toEntry I v ty names).fields, fs.1 = f ∧ Reach nt fs.2.types k.ty) ∧
+    (∀ fs ∈ (toEntry I v ty names).fields, QuantOK fs.2 (countField (ks.map kidVT) fs.1)) := by
+  obtain ⟨a1, _, a3, _, a5⟩ := kidsN_sound G I hcl n v ks h
+  constructor
+  · intro k hk f hf
+    simp only [List.mem_map] at hk
+    obtain ⟨c, hc, rfl⟩ := hk
+    simp only [kidVT, VT.fields] at hf
+    refine ⟨(f, { required := decide (1 ≤ I.fieldMin v f), multiple := decide (2 ≤ I.fieldMax v f), types := I.fieldTypes v f }), ?_, rfl, ?_⟩
+    · simp only [toEntry, List.mem_map]
+      exact ⟨f, hnames c hc f hf, rfl⟩
+    · exact Reach.base ((a1 c hc).2 f hf)
+  · intro fs hfs
+    simp only [toEntry, List.mem_map] at hfs
+    obtain ⟨f, _, rfl⟩ := hfs
+    refine ⟨fun hreq => ?_, fun hmul => ?_⟩
+    · simp only [decide_eq_true_eq] at hreq
+      simp only [countField_kidVT]
+      have := a5 f; omega
+    · simp only [decide_eq_false_iff_not] at hmul
+      simp only [countField_kidVT]
+      have := a3 f (by omega); omega
+
 /-! ## names -/
 
 /-- `name_roundtrip`: if the two decidable checks hold for a symbol table then every public symbol
@@ -243,5 +308,72 @@ example : ¬ Conforms msWitNT (.node ⟨"msrec_stmt", true⟩ false []
   fun h => by
     have := (conforms_iff msWitNT _).2 h
     revert this; decide
+
+/-! ### non-vacuity of `derive_sound_partial` -/
+namespace Derive
+
+def tIdent : TypeRef := ⟨"ident", true⟩
+def tColon : TypeRef := ⟨":", false⟩
+def tNum : TypeRef := ⟨"num", true⟩
+
+/-- `pair: key:ident ':' value:_vals` with the hidden rule `_vals: num | num num` -/
+def exG : Grammar :=
+  { syms := [.token (some tIdent), .token (some tColon), .rule 1 none, .token (some tNum)],
+    prods := [ [ [⟨0, some "key", none⟩, ⟨1, none, none⟩, ⟨2, some "value", none⟩] ],
+               [ [⟨3, none, none⟩], [⟨3, none, none⟩, ⟨3, none, none⟩] ] ] }
+
+def exI : Info :=
+  { children := fun v => if v = 0 then [tIdent, tColon, tNum] else [tNum],
+    fieldTypes := fun v f => if v = 0 then (if f = "key" then [tIdent] else if f = "value" then [tNum] else []) else [],
+    childMax := fun _ => 2,
+    childMin := fun v => if v = 0 then 3 else 1,
+    fieldMax := fun v f => if v = 0 then (if f = "key" then 1 else if f = "value" then 2 else 0) else 0,
+    fieldMin := fun v f => if v = 0 then (if f = "key" then 1 else if f = "value" then 1 else 0) else 0 }
+
+/-- a derivation through the hidden rule: the two `num` children inherit the field `value` -/
+example : KidsN exG 2 0 [⟨tIdent, ["key"]⟩, ⟨tColon, []⟩, ⟨tNum, ["value"]⟩, ⟨tNum, ["value"]⟩] := by
+  refine ⟨_, List.mem_singleton.2 rfl, ?_⟩
+  refine ⟨[⟨tIdent, ["key"]⟩], _, rfl, rfl, ?_⟩
+  refine ⟨[⟨tColon, []⟩], _, rfl, rfl, ?_⟩
+  refine ⟨[⟨tNum, ["value"]⟩, ⟨tNum, ["value"]⟩], [], rfl, ?_, rfl⟩
+  refine ⟨[⟨tNum, []⟩, ⟨tNum, []⟩], ?_, rfl⟩
+  refine ⟨[⟨3, none, none⟩, ⟨3, none, none⟩], by simp [Grammar.prodsOf, exG], ?_⟩
+  exact ⟨[⟨tNum, []⟩], [⟨tNum, []⟩], rfl, rfl, [⟨tNum, []⟩], [], rfl, rfl, rfl⟩
+
+/-- the information of the example is closed, so `derive_sound_partial` applies to it -/
+example : Closed exG exI := by
+  intro v p hp
+  have hv : v = 0 ∨ v = 1 ∨ 2 ≤ v := by omega
+  rcases hv with rfl | rfl | hv
+  · simp only [Grammar.prodsOf, exG, List.getD_cons_zero, List.mem_singleton] at hp
+    subst hp
+    refine ⟨?_, ?_, ?_, ?_, ?_⟩
+    · intro s hs
+      simp only [List.mem_cons, List.not_mem_nil, or_false] at hs
+      rcases hs with rfl | rfl | rfl
+      · simp [StepClosed, visTy, Grammar.kind, exG, exI, tIdent]
+      · simp [StepClosed, visTy, Grammar.kind, exG, exI, tColon, tIdent, tNum]
+      · simp [StepClosed, visTy, Grammar.kind, exG, exI, tNum]
+    · simp [exI]
+    · intro f
+      have e1 : ("key" = f) = (f = "key") := propext ⟨Eq.symm, Eq.symm⟩
+      have e2 : ("value" = f) = (f = "value") := propext ⟨Eq.symm, Eq.symm⟩
+      by_cases h1 : f = "key" <;> by_cases h2 : f = "value" <;>
+        simp_all [exI, sumBy, stepFieldMax, visTy, Grammar.kind, exG]
+    · simp [exI, sumBy, stepChildMin, visTy, Grammar.kind, exG]
+    · intro f
+      by_cases h1 : f = "key" <;> by_cases h2 : f = "value" <;>
+        simp_all [exI, sumBy, stepFieldMin, visTy, Grammar.kind, exG]
+  · simp only [Grammar.prodsOf, exG] at hp
+    simp at hp
+    rcases hp with rfl | rfl <;>
+      (refine ⟨?_, ?_, ?_, ?_, ?_⟩ <;>
+        simp_all [StepClosed, visTy, Grammar.kind, exG, exI, sumBy, stepFieldMax, stepFieldMin, stepChildMin, stepChildMax, tNum])
+  · have : exG.prodsOf v = [] := by
+      obtain ⟨w, rfl⟩ : ∃ w, v = w + 2 := ⟨v - 2, by omega⟩
+      simp [Grammar.prodsOf, exG]
+    rw [this] at hp; cases hp
+
+end Derive
 
 end TsVerif.C16
